@@ -92,12 +92,112 @@ def write_coqproject():
             raise RuntimeError('coq_makefile failed:\n' + out)
 
 
+class FileLock(object):
+    """Per-file build lock (so checks with disjoint closures build in parallel)."""
+
+    def __init__(self, relpath):
+        d = os.path.join(WORK, 'locks')
+        os.makedirs(d, exist_ok=True)
+        self.path = os.path.join(d, relpath.replace('/', '__') + '.lock')
+
+    def __enter__(self):
+        self.f = open(self.path, 'w')
+        fcntl.flock(self.f, fcntl.LOCK_EX)
+        return self
+
+    def __exit__(self, *a):
+        fcntl.flock(self.f, fcntl.LOCK_UN)
+        self.f.close()
+
+
+def direct_deps(vfile):
+    """PCB-internal files directly required by a .v file."""
+    p = os.path.join(THEORIES, vfile)
+    deps = []
+    if not os.path.exists(p):
+        return deps
+    src = strip_comments(open(p).read())
+    for sentence in re.split(r'\.\s', src):
+        mo = re.match(r'\s*(?:From\s+(\S+)\s+)?Require\s+(?:Import\s+|Export\s+)?(.*)$', sentence, re.S)
+        if not mo or mo.group(1) not in (None, 'PCB'):
+            continue
+        for name in mo.group(2).split():
+            if name.startswith('PCB.'):
+                name = name[4:]
+            cand = name.replace('.', '/') + '.v'
+            if os.path.exists(os.path.join(THEORIES, cand)) and cand not in deps:
+                deps.append(cand)
+    return deps
+
+
+def build_order(vfiles):
+    """Dependencies-first order of the closure of the given files."""
+    order = []
+    state = {}
+
+    def visit(f):
+        if state.get(f) == 2:
+            return
+        if state.get(f) == 1:
+            raise RuntimeError('dependency cycle at %s' % f)
+        state[f] = 1
+        for d in direct_deps(f):
+            visit(d)
+        state[f] = 2
+        order.append(f)
+    for f in vfiles:
+        visit(f)
+    return order
+
+
+def _mtime(p):
+    try:
+        return os.path.getmtime(p)
+    except OSError:
+        return None
+
+
 def make(targets, jobs=16, timeout=COQ_TIMEOUT):
-    """Build .vo targets (paths relative to theories/). Returns (ok, output, cmdline)."""
-    write_coqproject()
-    cmd = ['timeout', str(timeout), 'make', '-j%d' % jobs, '-k'] + list(targets)
-    rc, out, _ = run(cmd, cwd=THEORIES, timeout=timeout + 30)
-    return rc == 0, out, ' '.join(cmd)
+    """Build .vo targets (paths relative to theories/) and everything they depend on, each file under its own
+    lock, recompiling a file when its source or one of its dependencies is newer than its .vo.
+    Returns (ok, output, cmdline)."""
+    vfiles = [t[:-3] + '.v' if t.endswith('.vo') else t for t in targets]
+    try:
+        order = build_order(vfiles)
+    except RuntimeError as e:
+        return False, str(e), 'build'
+    ok = True
+    out = []
+    failed = set()
+    t_end = time.time() + timeout
+    for f in order:
+        deps = direct_deps(f)
+        if any(d in failed for d in deps):
+            failed.add(f)
+            continue
+        vo = os.path.join(THEORIES, f[:-2] + '.vo')
+        with FileLock(f):
+            mv = _mtime(os.path.join(THEORIES, f))
+            mo = _mtime(vo)
+            stale = mo is None or mo < mv
+            if not stale:
+                for d in deps:
+                    md = _mtime(os.path.join(THEORIES, d[:-2] + '.vo'))
+                    if md is None or md > mo:
+                        stale = True
+            if stale:
+                remaining = max(30, int(t_end - time.time()))
+                okc, outc, cmd, wall = coqc(f, timeout=remaining)
+                out.append('COQC %s (%.1fs)' % (f, wall))
+                if not okc:
+                    ok = False
+                    failed.add(f)
+                    out.append(outc)
+                    try:
+                        os.remove(vo)
+                    except OSError:
+                        pass
+    return ok, '\n'.join(out), 'coqc -Q . PCB <file>  for each stale file of: ' + ' '.join(order)
 
 
 def coqc(path, timeout=600):
@@ -350,10 +450,23 @@ def eval_model(prop_id, imports, cases, tag='cases'):
 # known findings
 
 def load_known():
+    """known_findings.json plus every fixes/K*.json (all committed, read-only at run time)."""
+    res = []
     p = os.path.join(VERIF, 'known_findings.json')
-    if not os.path.exists(p):
-        return []
-    return json.load(open(p)).get('findings', [])
+    if os.path.exists(p):
+        res += json.load(open(p)).get('findings', [])
+    d = os.path.join(VERIF, 'fixes')
+    if os.path.isdir(d):
+        for f in sorted(os.listdir(d)):
+            if f.startswith('K') and f.endswith('.json'):
+                try:
+                    k = json.load(open(os.path.join(d, f)))
+                except ValueError:
+                    continue
+                for e in (k if isinstance(k, list) else [k]):
+                    if not any(x.get('id') == e.get('id') and x.get('property') == e.get('property') for x in res):
+                        res.append(e)
+    return res
 
 
 # ---------------------------------------------------------------------------
@@ -502,7 +615,7 @@ def run_check(chk):
     obl = count_obligations([f for f in files if not f.startswith('lib/')] or files)
     n_obl = sum(len(v) for v in obl.values())
     discharged = 0
-    with BuildLock():
+    if True:
         deps = [f[:-2] + '.vo' for f in files if f != chk.PROPS]
         okm, outm, cmdm = make(deps)
         checker_cmds.append('(cd theories && %s)' % cmdm)
@@ -540,7 +653,7 @@ def run_check(chk):
         P = False
         proof_problem = (proof_problem or '') + '\nforbidden vernacular: %s' % forb
     if tier == 'thorough' and P:
-        with BuildLock():
+        if True:
             rc, outc, wallc = run(['timeout', '1800', 'coqchk', '-silent', '-o', '-Q', '.', 'PCB',
                                    'PCB.' + chk.PROPS[:-2].replace('/', '.')], cwd=THEORIES, timeout=1900)
         checker_cmds.append('(cd theories && coqchk -silent -o -Q . PCB PCB.%s)' % chk.PROPS[:-2].replace('/', '.'))
@@ -549,6 +662,7 @@ def run_check(chk):
             P = False
             proof_problem = (proof_problem or '') + '\ncoqchk failed:\n' + outc[-2000:]
 
+    t_proofs = time.time() - t0
     # 3. correspondence
     n_cases = chk.THOROUGH_CASES if tier == 'thorough' else chk.QUICK_CASES
     cases = list(chk.corpus())
@@ -600,6 +714,7 @@ def run_check(chk):
     for c, e in impl_errors:
         violations.append(('implementation adapter raised %s' % e, c, None))
 
+    t_corr = time.time() - t0 - t_proofs
     # 4. verdict
     holds = P and T and K and not violations
     found = list(violations)
@@ -690,6 +805,7 @@ def run_check(chk):
         'samples': samples or [{'note': 'no correspondence cases'}],
         'obligation_names': obl,
         'translator': tmsgs,
+        'wall_breakdown_s': {'regenerate+proofs': round(t_proofs, 1), 'correspondence': round(t_corr, 1)},
         'proofs_ok': P, 'translator_ok': T, 'correspondence_ok': K,
         'disagreements': disagreements[:10],
         'known_findings_printed': printed_known,
